@@ -272,6 +272,8 @@ fn result_ty(exp_kind: &str, op: &str) -> &'static str {
 struct Ctx<'a> {
     rep: &'a mut Report,
     funcs: Funcs,
+    /// also evaluate the half-constant forms (one parse per case: used for the grid and a sample of the random cases)
+    half: bool,
 }
 
 impl Ctx<'_> {
@@ -310,6 +312,28 @@ impl Ctx<'_> {
             }
         } else {
             self.rep.inconclusive("helper-function-rejected");
+        }
+        // half-constant forms: one operand is a literal in the function's text, the other arrives at run time
+        // (the folder sees a constant next to a non-constant: its early checks must agree with the run-time ones)
+        if self.half {
+            for (side, text, arg) in [
+                ("const-rhs", format!("(a: int) -> {rt} {{ return a {op} {} }}", int_lit(b)), a),
+                ("const-lhs", format!("(b: int) -> {rt} {{ return {} {op} b }}", int_lit(a)), b),
+            ] {
+                let interp = Interpreter::without_stdlib();
+                self.rep.evaluations += 1;
+                self.rep.count("form_half_constant");
+                let out = match real::guarded(|| Code::parse(&interp, &text).map(|c| c.exec())) {
+                    Err(p) => Outcome::Panic(p),
+                    Ok(Err(e)) => Outcome::Rejected(real::error_variant(&e), real::parse_err_kind(&e)),
+                    Ok(Ok(Err(e))) => Outcome::ExecErr(real::exec_err_kind(&e), format!("{e:?}")),
+                    Ok(Ok(Ok(Variable::Function(f)))) => call(&f, vec![Variable::Int(arg)]),
+                    Ok(Ok(Ok(other))) => Outcome::Value(other),
+                };
+                if let Err(why) = judge(&exp, &out) {
+                    self.fail(&format!("half-{side}"), "int", op, &a.to_string(), &b.to_string(), &format!("{why} [{text}]"));
+                }
+            }
         }
         // compound assignment
         if INT_ASSIGN.contains(&op) {
@@ -531,6 +555,7 @@ pub fn run(cfg: &Cfg, rep: &mut Report) {
     let mut ctx = Ctx {
         rep,
         funcs: Funcs { map: HashMap::new() },
+        half: true,
     };
     // exhaustive boundary grid, split over shards by cell index
     let mut cell = 0u64;
@@ -592,6 +617,7 @@ pub fn run(cfg: &Cfg, rep: &mut Report) {
         if i % 512 == 0 && deadline.over() {
             break;
         }
+        ctx.half = i % 16 == 0;
         match rng.below(10) {
             0..=6 => {
                 let op = *rng.pick(&INT_BIN);
@@ -621,6 +647,7 @@ pub fn replay(payload: &str, rep: &mut Report) {
     let mut ctx = Ctx {
         rep,
         funcs: Funcs { map: HashMap::new() },
+        half: true,
     };
     for line in payload.lines() {
         let f: Vec<&str> = line.split('\t').collect();
